@@ -611,7 +611,12 @@ pub fn gen_typed_case(r: &mut Rng, _depth: u32) -> Option<String> {
     REG.with(|reg| {
         let e = &reg[r.below(reg.len() as u64) as usize];
         for _ in 0..8 {
-            let t = if r.chance(1, 40) { gen_type(r, 1) } else { (e.gen_type)(r) };
+            // type mismatches between carriers and column types belong to C17; zero-dimension
+            // vectors are not CQL types and typed / dynamic decoders legitimately differ on them
+            let t = (e.gen_type)(r);
+            if s_type(&t).contains(";0)") {
+                continue;
+            }
             let c = match r.below(24) {
                 0 => Cell::Null,
                 1 => Cell::Unset,
